@@ -82,7 +82,36 @@ def cres(f, call):
         return "(Err EIndex)", "IndexError"
     except AssertionError:
         return "(Err (EAssert 0))", "AssertionError"
+    except ImplTimeout:
+        raise
+    except Exception as e:      # anything else: no model result has this kind, the case will be reported
+        return "(Err EOther)", type(e).__name__
     return f"(Ok {f(v)})", "ok"
+
+
+class ImplTimeout(Exception):
+    pass
+
+
+class limited:
+    """Wall-clock limit for calls into the implementation (SIGALRM; main thread only)."""
+
+    def __init__(self, seconds, what):
+        self.seconds, self.what = seconds, what
+
+    def __enter__(self):
+        import signal
+
+        def on_alarm(*_):
+            raise ImplTimeout(f"{self.what}: implementation did not return within {self.seconds}s")
+        self.old = signal.signal(signal.SIGALRM, on_alarm)
+        signal.alarm(self.seconds)
+
+    def __exit__(self, *a):
+        import signal
+        signal.alarm(0)
+        signal.signal(signal.SIGALRM, self.old)
+        return False
 
 
 # ---------------------------------------------------------------- real objects
@@ -122,6 +151,12 @@ def ceil16(b):
     return -(-b // 16) * 16
 
 
+PYRAMIDS = [[("YX", (56, 72), (32, 32), 1), ("YX", (28, 36), (16, 16), 1), ("YX", (14, 18), (16, 16), 1), ("YX", (7, 9), (16, 16), 1)],
+            [("SYX", (32, 40), (16, 16), 2), ("SYX", (16, 20), (16, 16), 2)],
+            [("YXS", (32, 40), (16, 16), 3), ("YXS", (16, 20), (16, 16), 3), ("YXS", (8, 10), (16, 16), 3)],
+            [("SYX", (5, 7), (16, 16), 3)]]
+
+
 # ---------------------------------------------------------------- correspondence (a)
 def gen_cases(out, tier):
     from odc.geo.cog import _shared as S
@@ -137,153 +172,186 @@ def gen_cases(out, tier):
         out.count(kind)
         out.case((kind, canon), nontrivial, sample)
 
-    # adjust_blocksize / norm_blocksize
-    blocks = list(range(-2, 70)) + [100, 255, 256, 257, 511, 512, 513, 1000, 2048]
-    dims = list(range(0, 70)) + [100, 255, 256, 257, 500, 512, 3000]
-    for b in blocks:
-        for d in (dims if (thorough or b < 40) else dims[::5]):
-            add("adjust_blocksize", f"CAdjust {cz(b)} {cz(d)} {cz(S.adjust_blocksize(b, d))}", (b, d), 0 < d < b,
-                {"op": "adjust_blocksize", "block": b, "dim": d, "result": S.adjust_blocksize(b, d)} if (b, d) == (40, 17) else None)
-        add("norm_blocksize", f"CNormBlk {cblk(b)} {cpair(S.norm_blocksize(b))}", b)
-    for b1, b2 in itertools.product([1, 15, 16, 17, 31, 32, 33, 100, 256, 500], repeat=2):
-        add("norm_blocksize", f"CNormBlk {cblk((b1, b2))} {cpair(S.norm_blocksize((b1, b2)))}", (b1, b2))
+    sections = []
 
-    # num_overviews (terminating inputs: block >= 0)
-    for b in [0, 1, 2, 15, 16, 17, 32, 48, 64, 100, 256, 512]:
-        for d in list(range(-3, 300 if thorough else 140)) + [511, 512, 513, 1023, 1024, 1025, 4096, 10 ** 6, 2 ** 40 + 1]:
-            add("num_overviews", f"CNumOvr {cz(b)} {cz(d)} {cz(S.num_overviews(b, d))}", (b, d), b < d)
-    for x in list(range(-2, 70)) + [2 ** k + e for k in (7, 10, 20, 49, 60) for e in (-1, 0, 1)]:
-        add("pow2", f"CPow2 {cz(x)} {cz(align_up_pow2(x))} {cz(align_down_pow2(x))}", x, x > 0)
+    def sec_blocksizes():
+        # adjust_blocksize / norm_blocksize
+        blocks = list(range(-2, 70)) + [100, 255, 256, 257, 511, 512, 513, 1000, 2048]
+        dims = list(range(0, 70)) + [100, 255, 256, 257, 500, 512, 3000]
+        for b in blocks:
+            for d in (dims if (thorough or b in (16, 17, 33, 40)) else dims[::4]):
+                add("adjust_blocksize", f"CAdjust {cz(b)} {cz(d)} {cz(S.adjust_blocksize(b, d))}", (b, d), 0 < d < b,
+                    {"op": "adjust_blocksize", "block": b, "dim": d, "result": S.adjust_blocksize(b, d)} if (b, d) == (40, 17) else None)
+            add("norm_blocksize", f"CNormBlk {cblk(b)} {cpair(S.norm_blocksize(b))}", b)
+        for b1, b2 in itertools.product([1, 15, 16, 17, 31, 32, 33, 100, 256, 500], repeat=2):
+            add("norm_blocksize", f"CNormBlk {cblk((b1, b2))} {cpair(S.norm_blocksize((b1, b2)))}", (b1, b2))
 
-    # compute_cog_spec
-    tiles = [(16, 16), (16, 32), (32, 16), (5, 100), (48, 48), (1, 1), (64, 16)]
-    pads = [None, None, 0, 1, 2, 3, 4, 7, 8, 100]
-    shapes = [(h, w) for h in range(1, 41 if thorough else 25) for w in (1, 2, 15, 16, 17, 33, 40, 70, 129, 300, 520)]
-    shapes += [(w, h) for h, w in shapes[:: 3]]
-    for sh in shapes:
-        for tl in (tiles if thorough else rng.sample(tiles, 2)):
-            mp = rng.choice(pads)
-            s2, t2, n = S.compute_cog_spec(sh, tl, max_pad=mp)
-            exp = ctuple(ctuple(cpair(s2.yx), cpair(t2.yx)), cz(n))
-            add("compute_cog_spec", f"CSpec {cpair(sh)} {cpair(tl)} {copt(mp)} {exp}", (sh, tl, mp), n > 0,
-                {"op": "compute_cog_spec", "shape": sh, "tile": tl, "max_pad": mp, "result": [list(s2.yx), list(t2.yx), n]}
-                if (sh, tl) == ((17, 300), (16, 16)) else None)
+    sections.append(("blocksizes", sec_blocksizes))
 
-    # yaxis_from_shape (malformed stream included: 1-d, 4-d, mismatching GeoBox)
-    ysh = [(5,), (5, 7), (5, 7, 2), (5, 7, 3), (5, 7, 4), (2, 5, 7), (3, 5, 7), (4, 4, 4), (3, 3, 3), (2, 5, 3),
-           (2, 5, 4), (5, 5, 5), (2, 3, 4, 5), (7, 5, 2)]
-    for sh in ysh:
-        gshapes = [None, (5, 7), (7, 5), (4, 4), (3, 3), (5, 3), (5, 4), (5, 5), (2, 5)]
-        for g in gshapes:
-            for ya in (None, 0, 1):
-                gbox = None if g is None else mk_gbox(g)
-                t, kind = cres(lambda v: ctuple(cz(AX_CODE[v[0]]), cz(v[1])), lambda: S.yaxis_from_shape(sh, gbox, ya))
-                g_txt = "None" if g is None else f"(Some {cpair(g)})"
-                add("yaxis_from_shape:" + kind, f"CYaxis {clist(sh)} {g_txt} {copt(ya)} {t}", (sh, g, ya))
+    def sec_overview_count():
+        # num_overviews (terminating inputs: block >= 0)
+        for b in [0, 1, 2, 15, 16, 17, 32, 48, 64, 100, 256, 512]:
+            for d in list(range(-3, 300 if thorough else 70)) + [100, 127, 128, 129, 255, 256, 257, 511, 512, 513, 1023, 1024, 1025, 4096, 10 ** 6, 2 ** 40 + 1]:
+                with limited(5, f"num_overviews({b}, {d})"):
+                    c = S.num_overviews(b, d)
+                add("num_overviews", f"CNumOvr {cz(b)} {cz(d)} {cz(c)}", (b, d), b < d)
+        for x in list(range(-2, 70)) + [2 ** k + e for k in (7, 10, 20, 49, 60) for e in (-1, 0, 1)]:
+            add("pow2", f"CPow2 {cz(x)} {cz(align_up_pow2(x))} {cz(align_down_pow2(x))}", x, x > 0)
 
-    # _make_empty_cog: metas (and the IFDs tifffile rendered for them)
-    mshapes = [(1, 1), (1, 70), (50, 1), (5, 7), (16, 16), (17, 300), (16, 300), (50, 70), (48, 520), (33, 33),
-               (64, 64), (65, 64), (100, 37), (8, 70), (2, 1000)]
-    if thorough:
-        mshapes += [(h, w) for h in (1, 2, 3, 15, 16, 17, 31, 32, 33, 47, 48, 49, 64, 127, 128, 129, 255, 256, 257)
-                    for w in (1, 16, 17, 100, 256, 257, 700)]
-    bss = [[16], [32, 16], [(16, 32)], [48, 16], [(32, 16), 16, 32], [100], [16, 16, 16, 16, 64], [20], [256, 128], [5]]
-    ifd_bad = []
-    n_ifd = 0
-    for sh in mshapes:
-        for bs in (bss if thorough else rng.sample(bss, 4)):
-            for ax, ns in (("YX", 1), ("YXS", 2), ("YXS", 3), ("SYX", 2), ("SYX", 4)):
-                if not thorough and rng.random() < 0.5:
-                    continue
-                full = sh if ax == "YX" else ((*sh, ns) if ax == "YXS" else (ns, *sh))
-                use_gbox = rng.random() < (0.3 if thorough else 0.15)
-                ya = None if rng.random() < 0.5 else (0 if ax != "SYX" else 1)
-                gbox = mk_gbox(sh) if use_gbox else None
-                bsz = bs[0] if (len(bs) == 1 and rng.random() < 0.5 and isinstance(bs[0], int)) else list(bs)
+    sections.append(("overview_count", sec_overview_count))
 
-                def call():
-                    meta, hdr = T._make_empty_cog(full, "uint8", gbox, blocksize=bsz, yaxis=ya, compression="deflate")
-                    return meta, bytes(hdr)
-                try:
-                    meta, hdr = call()
-                    obs = [observe_meta(m) for m in meta.flatten()]
-                    t = f"(Ok [{'; '.join(cmeta_obs(m) for m in obs)}])"
-                    kind = "ok"
-                except ValueError:
-                    t, kind, obs, hdr = "(Err EValue)", "ValueError", None, None
-                g_txt = "None" if gbox is None else f"(Some {cpair(sh)})"
-                add("make_empty_cog:" + kind, f"CMetas {clist(full)} {g_txt} {copt(ya)} {cblks(bs)} {t}",
-                    (full, use_gbox, ya, str(bs)), True,
-                    {"op": "_make_empty_cog", "shape": full, "blocksize": bs,
-                     "levels": [[list(m[1]), list(m[2])] for m in obs]} if (obs and sh == (17, 300) and len(out.samples) < 4) else None)
-                if obs is not None:
-                    # oracle: tifffile's empty-IFD writer rendered exactly these levels
-                    n_ifd += 1
-                    got = ifds_of_bytes(hdr)
-                    want = [(m[1][1], m[1][0], m[2][1], m[2][0], m[5]) for m in obs]
-                    have = [(i["width"], i["length"], i["tile_w"], i["tile_l"], len(i["offsets"])) for i in got]
-                    if want != have:
-                        ifd_bad.append((full, bs, want, have))
-    out.oblige("oracle:tifffile empty-IFD writer renders the CogMeta levels (tags 256/257/322/323, tile count)",
-               "oracle-contract", not ifd_bad, f"{len(ifd_bad)} of {n_ifd}: {ifd_bad[:2]}")
-    out.count("oracle:ifd-render", n_ifd)
+    def sec_cog_spec():
+        # compute_cog_spec
+        tiles = [(16, 16), (16, 32), (32, 16), (5, 100), (48, 48), (1, 1), (64, 16)]
+        pads = [None, None, 0, 1, 2, 3, 4, 7, 8, 100]
+        shapes = [(h, w) for h in range(1, 41 if thorough else 25) for w in (1, 2, 15, 16, 17, 33, 40, 70, 129, 300, 520)]
+        shapes += [(w, h) for h, w in shapes[:: 3]]
+        for sh in shapes:
+            for tl in (tiles if thorough else rng.sample(tiles, 2)):
+                mp = rng.choice(pads)
+                s2, t2, n = S.compute_cog_spec(sh, tl, max_pad=mp)
+                exp = ctuple(ctuple(cpair(s2.yx), cpair(t2.yx)), cz(n))
+                add("compute_cog_spec", f"CSpec {cpair(sh)} {cpair(tl)} {copt(mp)} {exp}", (sh, tl, mp), n > 0,
+                    {"op": "compute_cog_spec", "shape": sh, "tile": tl, "max_pad": mp, "result": [list(s2.yx), list(t2.yx), n]}
+                    if (sh, tl) == ((17, 300), (16, 16)) else None)
 
-    # CogMeta: flat_tile_idx / tidx / cog_tidx, exhaustive over small metas
-    small = [("YX", (5, 7), (16, 16), 1), ("YX", (33, 17), (16, 16), 1), ("YX", (40, 50), (16, 32), 1),
-             ("YXS", (33, 17), (16, 16), 3), ("SYX", (33, 17), (16, 16), 2), ("SYX", (17, 49), (16, 16), 3),
-             ("SYX", (1, 1), (16, 16), 1), ("YX", (64, 64), (16, 16), 1), ("SYX", (20, 70), (32, 16), 4)]
-    for t in small:
-        m = mk_meta(t)
-        ny, nx = m.chunked.yx
-        for idx in itertools.product(range(-1, m.num_planes + 1), range(-1, ny + 1), range(-1, nx + 1)):
-            r, kind = cres(cz, lambda: m.flat_tile_idx(idx))
-            add("flat_tile_idx:" + kind, f"CFlat {cmeta_t(t)} {c3(idx)} {r}", (t, idx))
-        add("tidx", f"CTidx {cmeta_t(t)} [{'; '.join(c3(i) for i in m.tidx())}]", t)
-        for s in range(0, m.num_planes + 2):
-            r, kind = cres(lambda v: "[" + "; ".join(c3(i) for i in v) + "]", lambda: list(m.tidx(s)))
-            add("tidx_of:" + kind, f"CTidxOf {cmeta_t(t)} {cz(s)} {r}", (t, s))
-    pyramids = [[("YX", (56, 72), (32, 32), 1), ("YX", (28, 36), (16, 16), 1), ("YX", (14, 18), (16, 16), 1), ("YX", (7, 9), (16, 16), 1)],
-                [("SYX", (32, 40), (16, 16), 2), ("SYX", (16, 20), (16, 16), 2)],
-                [("YXS", (32, 40), (16, 16), 3), ("YXS", (16, 20), (16, 16), 3), ("YXS", (8, 10), (16, 16), 3)],
-                [("SYX", (5, 7), (16, 16), 3)]]
-    for ts in pyramids:
-        m = mk_metas(ts)
-        add("cog_tidx", f"CCogTidx {cmetas(ts)} [{'; '.join(c4(i) for i in m.cog_tidx())}]", str(ts))
+    sections.append(("cog_spec", sec_cog_spec))
 
-    # _extract_tile_info: complete streams in random order with random sizes (zeros included),
-    # plus the malformed stream: duplicates, out-of-range indices, bad / negative level indices
-    n_streams = 60 if not thorough else 600
-    for k in range(n_streams):
-        ts = rng.choice(pyramids)
-        m = mk_metas(ts)
-        tiles = list(m.cog_tidx())
-        mode = rng.choice(["perm", "perm", "perm", "writer", "dup", "partial", "badidx", "badlevel", "neglevel"])
-        if mode in ("perm", "dup", "partial", "badidx", "badlevel", "neglevel"):
-            rng.shuffle(tiles)
-        if mode == "dup":
-            tiles = tiles + rng.sample(tiles, min(3, len(tiles)))
-        if mode == "partial":
-            tiles = tiles[: rng.randint(0, len(tiles))]
-        stream = [(*t, rng.choice([0, 0, 1, 2, 5, 17, 100, 4096])) for t in tiles]
-        if mode == "badidx":
-            i = rng.randrange(len(stream))
-            s = list(stream[i])
-            s[rng.choice([1, 2, 3])] = rng.choice([-1, 99])
-            stream[i] = tuple(s)
-        if mode == "badlevel":
-            i = rng.randrange(len(stream))
-            stream[i] = (len(ts) + rng.choice([0, 3]), *stream[i][1:])
-        if mode == "neglevel":
-            i = rng.randrange(len(stream))
-            stream[i] = (rng.choice([-1, -len(ts), -len(ts) - 1]), 0, 0, 0, 7)
-        start = rng.choice([0, 0, 8, 1000])
-        r, kind = cres(cinfo, lambda: T._extract_tile_info(m, stream, start))
-        add(f"extract_tile_info:{mode}:{kind}",
-            f"CExtract {cmetas(ts)} [{'; '.join(cobs(o) for o in stream)}] {cz(start)} {r}",
-            (str(ts), tuple(stream), start), True,
-            {"op": "_extract_tile_info", "levels": [list(t[1]) for t in ts], "stream": stream[:6], "start": start, "result": r[:200]}
-            if k == 0 else None)
-    return cases
+    def sec_yaxis():
+        # yaxis_from_shape (malformed stream included: 1-d, 4-d, mismatching GeoBox)
+        ysh = [(5,), (5, 7), (5, 7, 2), (5, 7, 3), (5, 7, 4), (2, 5, 7), (3, 5, 7), (4, 4, 4), (3, 3, 3), (2, 5, 3),
+               (2, 5, 4), (5, 5, 5), (2, 3, 4, 5), (7, 5, 2)]
+        for sh in ysh:
+            gshapes = [None, (5, 7), (7, 5), (4, 4), (3, 3), (5, 3), (5, 4), (5, 5), (2, 5)]
+            for g in gshapes:
+                for ya in (None, 0, 1):
+                    gbox = None if g is None else mk_gbox(g)
+                    t, kind = cres(lambda v: ctuple(cz(AX_CODE[v[0]]), cz(v[1])), lambda: S.yaxis_from_shape(sh, gbox, ya))
+                    g_txt = "None" if g is None else f"(Some {cpair(g)})"
+                    add("yaxis_from_shape:" + kind, f"CYaxis {clist(sh)} {g_txt} {copt(ya)} {t}", (sh, g, ya))
+
+    sections.append(("yaxis", sec_yaxis))
+
+    def sec_make_empty_cog():
+        # _make_empty_cog: metas (and the IFDs tifffile rendered for them)
+        mshapes = [(1, 1), (1, 70), (50, 1), (5, 7), (16, 16), (17, 300), (16, 300), (50, 70), (48, 520), (33, 33),
+                   (64, 64), (65, 64), (100, 37), (8, 70), (2, 1000)]
+        if thorough:
+            mshapes += [(h, w) for h in (1, 2, 3, 15, 16, 17, 31, 32, 33, 47, 48, 49, 64, 127, 128, 129, 255, 256, 257)
+                        for w in (1, 16, 17, 100, 256, 257, 700)]
+        bss = [[16], [32, 16], [(16, 32)], [48, 16], [(32, 16), 16, 32], [100], [16, 16, 16, 16, 64], [20], [256, 128], [5]]
+        ifd_bad = []
+        n_ifd = 0
+        for sh in mshapes:
+            for bs in (bss if thorough else rng.sample(bss, 4)):
+                for ax, ns in (("YX", 1), ("YXS", 2), ("YXS", 3), ("SYX", 2), ("SYX", 4)):
+                    if not thorough and rng.random() < 0.5:
+                        continue
+                    full = sh if ax == "YX" else ((*sh, ns) if ax == "YXS" else (ns, *sh))
+                    use_gbox = rng.random() < (0.3 if thorough else 0.15)
+                    ya = None if rng.random() < 0.5 else (0 if ax != "SYX" else 1)
+                    gbox = mk_gbox(sh) if use_gbox else None
+                    bsz = bs[0] if (len(bs) == 1 and rng.random() < 0.5 and isinstance(bs[0], int)) else list(bs)
+
+                    def call():
+                        meta, hdr = T._make_empty_cog(full, "uint8", gbox, blocksize=bsz, yaxis=ya, compression="deflate")
+                        return meta, bytes(hdr)
+                    try:
+                        meta, hdr = call()
+                        obs = [observe_meta(m) for m in meta.flatten()]
+                        t = f"(Ok [{'; '.join(cmeta_obs(m) for m in obs)}])"
+                        kind = "ok"
+                    except ValueError:
+                        t, kind, obs, hdr = "(Err EValue)", "ValueError", None, None
+                    except ImplTimeout:
+                        raise
+                    except Exception as e:
+                        t, kind, obs, hdr = "(Err EOther)", type(e).__name__, None, None
+                    g_txt = "None" if gbox is None else f"(Some {cpair(sh)})"
+                    add("make_empty_cog:" + kind, f"CMetas {clist(full)} {g_txt} {copt(ya)} {cblks(bs)} {t}",
+                        (full, use_gbox, ya, str(bs)), True,
+                        {"op": "_make_empty_cog", "shape": full, "blocksize": bs,
+                         "levels": [[list(m[1]), list(m[2])] for m in obs]} if (obs and sh == (17, 300) and len(out.samples) < 4) else None)
+                    if obs is not None:
+                        # oracle: tifffile's empty-IFD writer rendered exactly these levels
+                        n_ifd += 1
+                        got = ifds_of_bytes(hdr)
+                        want = [(m[1][1], m[1][0], m[2][1], m[2][0], m[5]) for m in obs]
+                        have = [(i["width"], i["length"], i["tile_w"], i["tile_l"], len(i["offsets"])) for i in got]
+                        if want != have:
+                            ifd_bad.append((full, bs, want, have))
+        out.oblige("oracle:tifffile empty-IFD writer renders the CogMeta levels (tags 256/257/322/323, tile count)",
+                   "oracle-contract", not ifd_bad, f"{len(ifd_bad)} of {n_ifd}: {ifd_bad[:2]}")
+        out.count("oracle:ifd-render", n_ifd)
+
+    sections.append(("make_empty_cog", sec_make_empty_cog))
+
+    def sec_cogmeta_indices():
+        # CogMeta: flat_tile_idx / tidx / cog_tidx, exhaustive over small metas
+        small = [("YX", (5, 7), (16, 16), 1), ("YX", (33, 17), (16, 16), 1), ("YX", (40, 50), (16, 32), 1),
+                 ("YXS", (33, 17), (16, 16), 3), ("SYX", (33, 17), (16, 16), 2), ("SYX", (17, 49), (16, 16), 3),
+                 ("SYX", (1, 1), (16, 16), 1), ("YX", (64, 64), (16, 16), 1), ("SYX", (20, 70), (32, 16), 4)]
+        for t in small:
+            m = mk_meta(t)
+            ny, nx = m.chunked.yx
+            for idx in itertools.product(range(-1, m.num_planes + 1), range(-1, ny + 1), range(-1, nx + 1)):
+                r, kind = cres(cz, lambda: m.flat_tile_idx(idx))
+                add("flat_tile_idx:" + kind, f"CFlat {cmeta_t(t)} {c3(idx)} {r}", (t, idx))
+            add("tidx", f"CTidx {cmeta_t(t)} [{'; '.join(c3(i) for i in m.tidx())}]", t)
+            for s in range(0, m.num_planes + 2):
+                r, kind = cres(lambda v: "[" + "; ".join(c3(i) for i in v) + "]", lambda: list(m.tidx(s)))
+                add("tidx_of:" + kind, f"CTidxOf {cmeta_t(t)} {cz(s)} {r}", (t, s))
+        for ts in PYRAMIDS:
+            m = mk_metas(ts)
+            add("cog_tidx", f"CCogTidx {cmetas(ts)} [{'; '.join(c4(i) for i in m.cog_tidx())}]", str(ts))
+
+    sections.append(("cogmeta_indices", sec_cogmeta_indices))
+
+    def sec_extract_tile_info():
+        # _extract_tile_info: complete streams in random order with random sizes (zeros included),
+        # plus the malformed stream: duplicates, out-of-range indices, bad / negative level indices
+        n_streams = 60 if not thorough else 600
+        for k in range(n_streams):
+            ts = rng.choice(PYRAMIDS)
+            m = mk_metas(ts)
+            tiles = list(m.cog_tidx())
+            mode = rng.choice(["perm", "perm", "perm", "writer", "dup", "partial", "badidx", "badlevel", "neglevel"])
+            if mode in ("perm", "dup", "partial", "badidx", "badlevel", "neglevel"):
+                rng.shuffle(tiles)
+            if mode == "dup":
+                tiles = tiles + rng.sample(tiles, min(3, len(tiles)))
+            if mode == "partial":
+                tiles = tiles[: rng.randint(0, len(tiles))]
+            stream = [(*t, rng.choice([0, 0, 1, 2, 5, 17, 100, 4096])) for t in tiles]
+            if mode == "badidx":
+                i = rng.randrange(len(stream))
+                s = list(stream[i])
+                s[rng.choice([1, 2, 3])] = rng.choice([-1, 99])
+                stream[i] = tuple(s)
+            if mode == "badlevel":
+                i = rng.randrange(len(stream))
+                stream[i] = (len(ts) + rng.choice([0, 3]), *stream[i][1:])
+            if mode == "neglevel":
+                i = rng.randrange(len(stream))
+                stream[i] = (rng.choice([-1, -len(ts), -len(ts) - 1]), 0, 0, 0, 7)
+            start = rng.choice([0, 0, 8, 1000])
+            r, kind = cres(cinfo, lambda: T._extract_tile_info(m, stream, start))
+            add(f"extract_tile_info:{mode}:{kind}",
+                f"CExtract {cmetas(ts)} [{'; '.join(cobs(o) for o in stream)}] {cz(start)} {r}",
+                (str(ts), tuple(stream), start), True,
+                {"op": "_extract_tile_info", "levels": [list(t[1]) for t in ts], "stream": stream[:6], "start": start, "result": r[:200]}
+                if k == 0 else None)
+
+    sections.append(("extract_tile_info", sec_extract_tile_info))
+
+    problems = []
+    for name, fn in sections:
+        try:
+            with limited(240 if thorough else 90, name):
+                fn()
+        except Exception as e:      # a crash or hang inside the implementation: reported, the search still runs
+            problems.append(f"{name}: {type(e).__name__}: {str(e)[:300]}")
+    return cases, problems
 
 
 def ifds_of_bytes(hdr: bytes):
@@ -619,7 +687,8 @@ def check_file(cfg, rec):
         a = cogio.decode_tifffile(path)
         b, info = cogio.decode_rasterio(path)
     except Exception as e:  # pragma: no cover
-        return False, f"reader failed: {type(e).__name__}: {e}", ifds
+        msgs.append(f"reader failed: {type(e).__name__}: {e}")
+        return False, "; ".join(msgs[:4]), ifds
     # tifffile squeezes singleton sample / plane axes
     if ax == "YX":
         a3, p3 = a.reshape(1, Hp, Wp), pix[np.newaxis]
@@ -742,7 +811,9 @@ def run(out, tier, scratch):
         "the tile codecs (deflate/zstd/lzw/none, predictors), GDAL/rasterio and tifffile decoders, GeoTIFF tag rendering, "
         "dask rechunk (ceil(dim/tile) source blocks per axis)",
     ]
-    cases = gen_cases(out, tier)
+    cases, problems = gen_cases(out, tier)
+    out.oblige("harness:every implementation call of the case generator returned", "correspondence", not problems,
+               " | ".join(problems))
     kinds = ["a"] * len(cases)
     # ---- end-to-end runs
     e2e_done = []
